@@ -1,0 +1,44 @@
+//go:build verif
+
+// Package verifhook provides named delay/fault points for runtime
+// verification. With the "verif" build tag a test can arm a callback for a
+// point; without the tag At is an empty function.
+package verifhook
+
+import "sync"
+
+var (
+	mu    sync.RWMutex
+	armed = map[string]func(){}
+)
+
+// At runs the callback armed for name, if any
+func At(name string) {
+	mu.RLock()
+	fn := armed[name]
+	mu.RUnlock()
+	if fn != nil {
+		fn()
+	}
+}
+
+// Arm installs fn for the named point
+func Arm(name string, fn func()) {
+	mu.Lock()
+	armed[name] = fn
+	mu.Unlock()
+}
+
+// Disarm removes the callback of the named point
+func Disarm(name string) {
+	mu.Lock()
+	delete(armed, name)
+	mu.Unlock()
+}
+
+// DisarmAll removes every callback
+func DisarmAll() {
+	mu.Lock()
+	armed = map[string]func(){}
+	mu.Unlock()
+}
